@@ -42,9 +42,12 @@ func BlockedProof(marker string) string {
 	if id1 == "" || !blockingState(st1) || !strings.Contains(stack1, "fsnotify.") {
 		return ""
 	}
+	if anyFsnotifyRunnable() {
+		return "" // somebody inside fsnotify can still make progress (perhaps starved of CPU): no proof
+	}
 	time.Sleep(time.Second)
 	id2, st2, stack2 := GoroutineState(marker)
-	if id2 != id1 || st2 != st1 {
+	if id2 != id1 || st2 != st1 || anyFsnotifyRunnable() {
 		return ""
 	}
 	proof := "call blocked: " + strings.SplitN(stack2, "\n", 2)[0] + "\n" + stack2
@@ -54,4 +57,20 @@ func BlockedProof(marker string) string {
 		}
 	}
 	return proof
+}
+
+// anyFsnotifyRunnable reports whether some goroutine with fsnotify frames is
+// running, runnable or in a system call: on a loaded machine such a goroutine
+// may simply not have been scheduled yet, so nothing waiting for it is proved
+// to wait forever.
+func anyFsnotifyRunnable() bool {
+	for _, g := range FsnotifyGoroutines() {
+		if m := goHeader.FindStringSubmatch(g); m != nil {
+			switch m[2] {
+			case "running", "runnable", "syscall":
+				return true
+			}
+		}
+	}
+	return false
 }
